@@ -13,7 +13,7 @@ def extra_entries():
     from nflows.flows.realnvp import SimpleRealNVP
     from nflows.flows.base import Flow
     from nflows.distributions import normal, mixture
-    from nflows.transforms import permutations as perm, base, conv, nonlinearities as nl, made, normalization as norm_, standard as std_
+    from nflows.transforms import permutations as perm, base, conv, nonlinearities as nl, made, normalization as norm_, standard as std_, lu as lu_
     return [
         ("MaskedAutoregressiveFlow(random masks, perms)", lambda: MaskedAutoregressiveFlow(4, 8, 2, 1, use_residual_blocks=False, use_random_masks=True, use_random_permutations=True, batch_norm_within_layers=True, batch_norm_between_layers=True), [4], None),
         ("SimpleRealNVP", lambda: SimpleRealNVP(4, 8, 2, 1, batch_norm_between_layers=True), [4], None),
@@ -22,6 +22,8 @@ def extra_entries():
         ("Flow(RandomPermutation+1x1conv, StandardNormal)", lambda: Flow(base.CompositeTransform([perm.RandomPermutation(3), nl.LeakyReLU()]), normal.StandardNormal([3])), [3], None),
         ("Composite(ActNorm, LeakyReLU, ActNorm)", lambda: base.CompositeTransform([norm_.ActNorm(3), nl.LeakyReLU(0.2), norm_.ActNorm(3)]), [3], None),
         ("Flow(Composite(ActNorm, Affine), StandardNormal)", lambda: Flow(base.CompositeTransform([norm_.ActNorm(3), std_.PointwiseAffineTransform(0.3, 1.7)]), normal.StandardNormal([3])), [3], None),
+        ("LULinear(5 features)", lambda: lu_.LULinear(5, identity_init=False), [5], None),
+        ("OneByOneConvolution(4 channels)", lambda: conv.OneByOneConvolution(4, identity_init=False), [4, 2, 2], None),
         ("MADE(random mask)", None, None, None),
     ]
 
@@ -112,6 +114,24 @@ def search(ck, tier, seed):
                                "%s (%s): %s differs after loading the state dict into a fresh instance built under another seed"
                                % (name, history, k), case)
                     break
+            # the same tensors as a PLAIN dict (what is left of a state dict after {k: v.cpu()}, a key filter, safetensors ...: the
+            # values without torch's _metadata): loading it gives the same function
+            torch.manual_seed(seed + 15485863)
+            m4 = attempt(make)
+            if m4[0] == "ok":
+                m4 = m4[1]
+                plain = {k_: v_.detach().clone() for k_, v_ in m.state_dict().items()}
+                l4 = attempt(m4.load_state_dict, plain, True)
+                if l4[0] == "ok":
+                    m4.eval()
+                    got4 = attempt(evaluate, m4, x, ctx)
+                    if got4[0] == "ok":
+                        for k, v in ref[1].items():
+                            v2 = got4[1].get(k)
+                            if not (v2 is not None and v.shape == v2.shape and bool(((v == v2) | (torch.isnan(v) & torch.isnan(v2))).all())):
+                                ck.finding("reload:different-function:plain-dict:%s" % name,
+                                           "%s (%s): %s differs after loading the same tensors handed over as a plain dict (no _metadata)" % (name, history, k), case)
+                                break
             # the same state dict loaded into an instance that has already been USED (evaluated in evaluation mode without
             # gradients, as a deployed model would be): whatever it memoised from its old parameters must not survive the load
             torch.manual_seed(seed + 104729)
